@@ -444,4 +444,13 @@ def coerce(v, sort):
         return z3.ToReal(v)
     if sort == so.XR() and (z3.is_int(v) or z3.is_real(v)):
         return so.xr_fin(v)
+    if sort == R and v.sort() == so.XR() and CURRENT_RUN[0] is not None:
+        # an extended real stored where the contract types a finite number (a time appended to a list of times): finiteness is a
+        # safety obligation at that point, then the finite value is used
+        run = CURRENT_RUN[0]
+        run.oblige('safety', 'finite-value', getattr(run, 'cur_line', 0), Not(so.xr_isinf(v)))
+        return so.xr_val(v)
     raise Unsupported('cannot coerce sort %s to %s' % (v.sort(), sort))
+
+
+CURRENT_RUN = [None]
